@@ -25,10 +25,28 @@
 //	   post-Byron type and p lies in the declared range of T's era (and of no other);
 //	R3 a canonical header in era E's native layout whose major lies in E's declared range
 //	   is classified as E's block type;
-//	R4 a real fixture header is classified as the fixture's true era;
+//	(observation only, not judged: how real fixture headers are classified; a real header
+//	   carries the major its producer is ready for, which may be the next era's, and the
+//	   property only speaks about the type inferred from the major)
 //	R5 the two maps are inverse bijections, and the header era id a block type maps to is
 //	   the id of the era that blocks of this type report;
 //	R6 whatever decodes as type T reports Type()==T, Era()==era(T), Header().Era()==era(T).
+//
+// Observations on the unchanged tree that are NOT violations of the property as stated
+// (kept as evidence notes): real allegra header carries major 4 -> classified Mary; real
+// mary header carries major 5 -> classified Alonzo; real alonzo header (15-field) carries
+// major 7 -> "unknown proto major 7 for Shelley-like"; the real dijkstra fixture has the
+// 12-field Leios-extended header body -> "unknown header body length 12". A first draft
+// demanded "real header => true era"; that asks for more than the property states and was
+// removed. NewBlockFromCborWithOffsets(0, EBB) fails while NewBlockFromCbor(0, EBB) works
+// (noted, C07/C34 territory).
+//
+// Detection (scratch copy /tmp/c36agent-repo, VERIF_REPO_OVERRIDE, deleted afterwards), each alone:
+//  1. MaxProtocolVersionBabbage = 9            -> declared-range|overlap|Babbage,Conway (+ major-in-several-eras)
+//  2. MaryBlockHeader.Era() returns EraShelley  -> <entry>|Era()-mismatch|T=4|reports=1/Shelley on all six entry points
+//  3. BlockHeaderTypeMary: BlockTypeAlonzo      -> maps|not-inverse|header-era=3, maps|header-era-is-not-era-of-type|..., maps|not-inverse|block-type=4
+//  4. Conway arm compares with Max-1            -> DetermineBlockType|declared-major-rejected|era=Conway|layout=10
+//  5. NewBlockFromCbor: Mary -> Allegra ctor    -> NewBlockFromCbor|Type()-mismatch|T=4|reports=3 (+ Era keys, also via WithOffsets)
 package main
 
 import (
@@ -789,5 +807,9 @@ func replay(path string) {
 	default:
 		fmt.Println("this case kind is re-checked by a normal run (no input to replay)")
 	}
-	c.Finish()
+	// a replay never overwrites the evidence of the last full run
+	if c.Violations() > 0 {
+		os.Exit(1)
+	}
+	os.Exit(0)
 }
